@@ -284,6 +284,13 @@ def install(I):
         I.write(st, r.cell, r.path, Agg(v.ty, v.fields + (args[1],)))
         return I.ret(st, UNIT)
 
+    @M(r'^(std::|alloc::)?vec::from_elem(::<.*>)?$', 'vec![elem; n] (concrete n)')
+    def m_from_elem(I, st, f, args, fr):
+        n = int_of(I, st, args[1]).concrete()
+        if n is None or n > 64:
+            raise Unmodelled('symbolic / large vec![elem; n]')
+        return I.ret(st, Agg('Vec', [args[0]] * n))
+
     @M(r'^Vec::<.*>::resize$|^VecDeque::<.*>::resize$', 'Vec::resize')
     def m_resize(I, st, f, args, fr):
         r = args[0]
@@ -350,6 +357,26 @@ def install(I):
                 continue
             out.append(x)
         I.write(st, r.cell, r.path, Agg('Vec', out))
+        return I.ret(st, UNIT)
+
+    @M(r'^Vec::<.*>::(try_reserve|try_reserve_exact)$', 'Vec::try_reserve (succeeds, or reports an allocation failure)')
+    def m_try_reserve(I, st, f, args, fr):
+        s2 = st.fork()
+        s2.emit('ALLOC_FAILED')
+        return [Outcome(st, 'ret', ok(UNIT)), Outcome(s2, 'ret', err(Opaque('TryReserveError', ident='try-reserve-error')))]
+
+    @M(r'^Vec::<.*>::(reserve|reserve_exact|shrink_to_fit)$', 'Vec::reserve (no observable effect)')
+    def m_reserve(I, st, f, args, fr):
+        return I.ret(st, UNIT)
+
+    @M(r'^Vec::<.*>::extend_from_slice$', 'Vec::extend_from_slice')
+    def m_extend_from_slice(I, st, f, args, fr):
+        r = args[0]
+        v = coll_ref(I, st, r, ('Vec',), 'Vec')
+        src = deref_val(I, st, args[1])
+        if not is_coll(src, 'Vec', '[]'):
+            raise Unmodelled('extend_from_slice of %r' % (src,))
+        I.write(st, r.cell, r.path, Agg('Vec', v.fields + tuple(src.fields)))
         return I.ret(st, UNIT)
 
     @M(r'^Vec::<.*>::truncate$|^VecDeque::<.*>::truncate$', 'Vec::truncate')
@@ -445,13 +472,16 @@ def install(I):
                     work.append((s3, i + 1, kept + ([v.fields[i]] if keep else [])))
         return outs
 
-    @M(r'^<(\[.*\]|Vec<.*>) as Index<(std::ops::|ops::)?Range(To|From|Full|Inclusive|ToInclusive)?(<usize>)?>>::index$', 'slice[a..b] with concrete bounds (copy of the sub-sequence)')
+    @M(r'^<(\[.*\]|Vec<.*>) as Index(Mut)?<(std::ops::|ops::)?Range(To|From|Full|Inclusive|ToInclusive)?(<usize>)?>>::index(_mut)?$', 'slice[a..b] with concrete bounds (copy of the sub-sequence)')
     def m_index_range(I, st, f, args, fr):
+        if f.endswith('index_mut') and not getattr(I, 'allow_slice_copy_mut', False):
+            # the result is a copy: writes through it would be lost. Only checks whose environment never writes into the slice may opt in.
+            raise Unmodelled('mutable sub-slice (view semantics not modelled): ' + f)
         seq = deref_val(I, st, args[0])
         if not is_coll(seq, 'Vec', '[]'):
             raise Unmodelled('range index of %r' % (seq,))
         r = args[1]
-        kind = re.search(r'Index<(?:std::ops::|ops::)?(Range\w*)', f).group(1)
+        kind = re.search(r'Index(?:Mut)?<(?:std::ops::|ops::)?(Range\w*)', f).group(1)
 
         def conc(x):
             t = z3.simplify(x.t if isinstance(x, Sc) else x)
